@@ -45,6 +45,7 @@ fn graph_hash(c: &CaseSpec) -> u64 {
         h.u64(f.reads as u64);
         h.u64(f.writes as u64);
         h.u8(f.style);
+        h.u8(f.own);
     }
     for e in &c.graph.calls {
         h.usize(e.from);
@@ -166,7 +167,8 @@ impl Stats {
             1 => "n.1",
             2..=7 => "n.2-7",
             8..=24 => "n.8-24",
-            _ => "n.25-160",
+            25..=300 => "n.25-300",
+            _ => "n.over-1000",
         });
 
         let mut nontrivial = false;
